@@ -54,8 +54,36 @@ pub const ATTRS: &[Attr] = &[
     /* 9 */ Attr { kw: StepType::When, kind: "lit", text: "two attrs B", func: "two", mode: "p", tys: "" },
     /* 10 */ Attr { kw: StepType::Then, kind: "expr", text: "custom {mp}", func: "custom", mode: "p", tys: "s" },
     /* 11 */ Attr { kw: StepType::When, kind: "re", text: r"^typed (\S+)$", func: "typed", mode: "p", tys: "u" },
-    /* 12 (second World) */ Attr { kw: StepType::Given, kind: "lit", text: "a literal step", func: "other_world", mode: "p", tys: "" },
+    /* 12 */ Attr { kw: StepType::When, kind: "re", text: r"^alias (ok|err)$", func: "res_alias", mode: "p", tys: "s" },
+    /* 13 */ Attr { kw: StepType::Then, kind: "re", text: r"^aalias (ok|err)$", func: "res_async_alias", mode: "p", tys: "s" },
+    /* 14 */ Attr { kw: StepType::Given, kind: "expr", text: "copy {string} to {string}", func: "copy", mode: "p", tys: "ss" },
+    /* 15 */ Attr { kw: StepType::When, kind: "expr", text: "set {string} to {int}", func: "set", mode: "p", tys: "su" },
+    /* 16 */ Attr { kw: StepType::Then, kind: "expr", text: "box {mp} has {int} items", func: "boxf", mode: "p", tys: "su" },
+    /* 17 (second World) */ Attr { kw: StepType::Given, kind: "lit", text: "a literal step", func: "other_world", mode: "p", tys: "" },
 ];
+
+/// index of the second World's attribute (the last one)
+const W2: usize = 17;
+
+/// a `Result` spelled through aliases: the glue must still fail the step on `Err`
+pub type StepResult = Result<(), String>;
+pub mod outcome {
+    pub type Fallible = std::result::Result<(), String>;
+}
+
+/// (sample text, text prefix) of the expression attributes
+fn expr_probe(func: &str) -> (&'static str, &'static str) {
+    match func {
+        "expr1" => ("12 cucumbers and \"x\"", ""),
+        "custom" => ("custom a1", "custom "),
+        "copy" => ("copy \"a\" to 'b'", "copy "),
+        "set" => ("set 'k' to 7", "set "),
+        _ => ("box a1 has 3 items", "box "),
+    }
+}
+fn expr_home(func: &str, text: &str) -> bool {
+    if func == "expr1" { text.contains("cucumbers and") } else { text.starts_with(expr_probe(func).1) }
+}
 
 #[given("a literal step")]
 fn lit1(w: &mut ZW) {
@@ -115,6 +143,33 @@ fn typed(w: &mut ZW, n: u32) {
     w.log.push(format!("typed|{n}"));
 }
 
+#[when(regex = r"^alias (ok|err)$")]
+fn res_alias(w: &mut ZW, x: String) -> StepResult {
+    w.log.push(format!("res_alias|{x}"));
+    if x == "err" { Err("boom".into()) } else { Ok(()) }
+}
+
+#[then(regex = r"^aalias (ok|err)$")]
+async fn res_async_alias(w: &mut ZW, x: String) -> outcome::Fallible {
+    w.log.push(format!("res_async_alias|{x}"));
+    if x == "err" { Err("boom".into()) } else { Ok(()) }
+}
+
+#[given(expr = "copy {string} to {string}")]
+fn copy(w: &mut ZW, a: String, b: String) {
+    w.log.push(format!("copy|{a}|{b}"));
+}
+
+#[when(expr = "set {string} to {int}")]
+fn set(w: &mut ZW, k: String, n: u32) {
+    w.log.push(format!("set|{k}|{n}"));
+}
+
+#[then(expr = "box {mp} has {int} items")]
+fn boxf(w: &mut ZW, p: MP, n: u32) {
+    w.log.push(format!("boxf|{}|{n}", p.0));
+}
+
 #[given("a literal step")]
 fn other_world(w: &mut ZW2) {
     w.log.push("other_world".into());
@@ -127,13 +182,13 @@ fn kw_name(k: StepType) -> &'static str {
 /// which attribute a registered regex belongs to
 fn attr_index(world: u8, kw: StepType, re: &str) -> Option<usize> {
     ATTRS.iter().enumerate().position(|(i, a)| {
-        let w = if i == 12 { 2 } else { 1 };
+        let w = if i == W2 { 2 } else { 1 };
         w == world && a.kw == kw && match a.kind {
             "lit" => re == format!("^{}$", regex::escape(a.text)),
             "re" => re == a.text,
             _ => {
                 // expression: behavioural identification through a sample text
-                let sample = if i == 4 { "12 cucumbers and \"x\"" } else { "custom a1" };
+                let sample = expr_probe(a.func).0;
                 Regex::new(re).map(|r| r.is_match(sample) && !re.starts_with("^I") && !re.contains("ctx") ).unwrap_or(false)
                     && !ATTRS.iter().any(|b| (b.kind == "re" && re == b.text) || (b.kind == "lit" && re == format!("^{}$", regex::escape(b.text))))
             }
@@ -177,6 +232,10 @@ const TEXTS: &[&str] = &[
     "two attrs A", "two attrs B", "two attrs C",
     "custom a1", "custom b2", "custom c3", "custom a12",
     "typed 5", "typed x", "typed 4294967295", "typed 4294967296", "typed +7", "typed",
+    "alias ok", "alias err", "alias no", "aalias ok", "aalias err",
+    "copy \"a.txt\" to \"b.txt\"", "copy 'a' to 'b'", "copy \"\" to 'x'", "copy 'p q' to \"r\"", "copy a to b",
+    "set 'k' to 7", "set \"k\" to 7", "set \"k\" to -7", "set \"\" to 0", "set k to 7",
+    "box a1 has 3 items", "box b2 has 3 items", "box b2 has -1 items", "box c3 has 3 items", "box a1 has x items",
 ];
 
 /// dispatch: for a generated (keyword, text) find the function through the real `World::collection()`,
@@ -184,10 +243,10 @@ const TEXTS: &[&str] = &[
 pub fn gen_dispatch(rng: &mut Rng, _idx: usize) -> Case {
     let text = *rng.pick(TEXTS);
     // two thirds of the time use the keyword of the attribute the text was written for
-    let home = ATTRS[..12].iter().find(|a| match a.kind {
+    let home = ATTRS[..W2].iter().find(|a| match a.kind {
         "lit" => text.starts_with(&a.text[..a.text.len().min(6)]),
         "re" => text.split(' ').next() == a.text.trim_start_matches('^').split(' ').next(),
-        _ => (a.func == "expr1" && text.contains("cucumbers")) || (a.func == "custom" && text.starts_with("custom")),
+        _ => expr_home(a.func, text),
     });
     let kw = match home {
         Some(a) if rng.chance(2, 3) => a.kw,
@@ -205,7 +264,7 @@ pub fn gen_dispatch(rng: &mut Rng, _idx: usize) -> Case {
         }
         Ok(None) => {
             // no definition matched: literal attributes of this keyword must all differ from the text
-            let lits: Vec<&Attr> = ATTRS[..12].iter().filter(|a| a.kind == "lit" && a.kw == kw).collect();
+            let lits: Vec<&Attr> = ATTRS[..W2].iter().filter(|a| a.kind == "lit" && a.kw == kw).collect();
             let mut rq = vec![];
             let mut im = vec![];
             for a in lits {
@@ -225,10 +284,10 @@ pub fn gen_dispatch(rng: &mut Rng, _idx: usize) -> Case {
             let r = std::panic::catch_unwind(std::panic::AssertUnwindSafe(|| block_on(f(&mut w, ctx.clone()))));
             crate::fam_attempt::HOOK_QUIET.with(|q| q.set(false));
             // the attribute that matched: the unique one of this keyword whose regex matches
-            let idx = ATTRS[..12].iter().position(|a| a.kw == kw && match a.kind {
+            let idx = ATTRS[..W2].iter().position(|a| a.kw == kw && match a.kind {
                 "lit" => a.text == text,
                 "re" => Regex::new(a.text).unwrap().is_match(text),
-                _ => (a.func == "expr1" && text.contains("cucumbers and")) || (a.func == "custom" && text.starts_with("custom ")),
+                _ => expr_home(a.func, text),
             });
             let Some(idx) = idx else {
                 return Case { req: "harness.ended".into(), imp: "!matched-but-no-attribute".into(), class: "bug".into(), nontrivial: true };
@@ -239,7 +298,7 @@ pub fn gen_dispatch(rng: &mut Rng, _idx: usize) -> Case {
                 imp = b(r.is_ok() && w.log.first().is_some_and(|l| l == a.func)).to_owned();
                 class = "literal".to_owned();
             } else {
-                let ret = if a.func == "res" { if text.ends_with("err") { "err" } else { "ok" } } else { "u" };
+                let ret = if a.func.starts_with("res") { if text.ends_with("err") { "err" } else { "ok" } } else { "u" };
                 let tys: Vec<String> = a.tys.chars().map(|c| c.to_string()).collect();
                 req = format!(
                     "glue.args {} {} {} {}",
